@@ -183,6 +183,8 @@ struct BlockStats {
     sigs: BTreeSet<u64>,
     digest: u64,
     sample_runs: Vec<u64>,
+    /// slowest run of the block: (microseconds, run index) — wall-clock, reporting only
+    slowest: (u64, u64),
 }
 
 pub struct KnownFinding {
@@ -446,6 +448,9 @@ pub fn run<S: Scenario>(cfg: &RunCfg) -> i32 {
             } else {
                 m.sig_capped = true;
             }
+            if bs.slowest.0 > tot.slowest.0 {
+                tot.slowest = bs.slowest;
+            }
             m.digest.u64(b);
             m.digest.u64(bs.digest);
             if tot.sample_runs.len() < 48 {
@@ -478,7 +483,12 @@ pub fn run<S: Scenario>(cfg: &RunCfg) -> i32 {
                         if cfg!(miri) {
                             eprintln!("miri-run {run}");
                         }
+                        let t_run = Instant::now();
                         let out = exec_one::<S>(&trace, false);
+                        let us = t_run.elapsed().as_micros() as u64;
+                        if us > bs.slowest.0 {
+                            bs.slowest = (us, run);
+                        }
                         crate::supervisor::set_run(u64::MAX);
                         bs.runs += 1;
                         bs.evals += out.evals;
@@ -665,6 +675,7 @@ pub fn run<S: Scenario>(cfg: &RunCfg) -> i32 {
         "extra": named(S::extra_names(), &tot.extra),
         "skipped": tot.skipped.iter().map(|(k, v)| (k.to_string(), json!(v))).collect::<serde_json::Map<_, _>>(),
         "log_digest": format!("{:016x}", digest.finish()),
+        "slowest_run": {"run": tot.slowest.1, "wall_ms": tot.slowest.0 / 1000},
         "threads": cfg.threads,
         "real_components": S::real_components(),
         "simulated_components": S::simulated_components(),
@@ -717,6 +728,7 @@ pub fn run<S: Scenario>(cfg: &RunCfg) -> i32 {
         wall,
         nviol
     );
+    println!("slowest run: {} ({} ms wall)", tot.slowest.1, tot.slowest.0 / 1000);
     if !cfg.quiet {
         println!("faults fired: {}", named(S::fault_names(), &tot.faults));
         println!("probes: {}", named(S::probe_names(), &tot.probes));
